@@ -272,6 +272,17 @@ def main(argv):
         n_err = sum(len(r.errors) for r in results)
         n_inc = sum(len(r.inconclusive) for r in results) + len(extra.get('inconclusive', []))
         n_limit = sum(r.limited for r in results)
+        # a job that ran on proxies when the check was built (encoded_baseline.json, committed) and now stops with an error means the
+        # source changed in a way the symbolic executor cannot follow: the property is undecided for it - never a silent pass
+        try:
+            with open(os.path.join(ROOT, 'encoded_baseline.json')) as f:
+                baseline = set(json.load(f).get(pid, {}).get(tier, []))
+        except (OSError, ValueError):
+            baseline = set()
+        for name, reason in sorted(not_encoded.items()):
+            if name in baseline and reason.startswith('error:'):
+                harness_errors.append('%s was encodable when the check was built but can no longer be executed on proxies (%s): undecided for it'
+                                      % (name, reason[:140]))
         if len(kept) < spec.get('min_encoded', 1):
             harness_errors.append('only %d jobs could be encoded (minimum %d)' % (len(kept), spec.get('min_encoded', 1)))
         timed_out = timed_out and any((not r.complete) and not r.capped for r in kept)
@@ -368,6 +379,9 @@ def main(argv):
           % (pid, tier, n_paths, obligations, discharged, n_inc, n_err, wall, coverage['solver_s']))
     if tolerant:
         print('  encoded jobs: %d   not encoded: %d' % (len(results), len(not_encoded)))
+        if args.only:
+            for name, reason in sorted(not_encoded.items()):
+                print('  not encoded: %s: %s' % (name, reason[:200]))
     for r in (results if len(results) <= 60 else [x for x in results if x.violations or x.errors or not x.complete]):
         s = r.summary()
         print('  job %-40s paths=%-6d obl=%-7d viol=%-4d abort=%-4d err=%-3d %s %.1fs' % (
